@@ -24,3 +24,55 @@ pub trait DirectLDLSolver<T: FloatT>: DirectLDLSolverReqs<T> + HasLinearSolverIn
     fn solve(&mut self, kkt: &CscMatrix<T>, x: &mut [T], b: &[T]);
     fn refactor(&mut self, kkt: &CscMatrix<T>) -> bool;
 }
+
+// verification-only hooks (see /verif); compiled only under the guard cfg
+#[cfg(oxfordcontrol_clarabel_rs_verif)]
+#[allow(missing_docs, non_snake_case)]
+pub mod verif_hooks_kkt {
+    //! plain-data view of the crate-private KKT assembly and its index maps
+    use super::datamaps::*;
+    use super::kkt_assembly::*;
+    use crate::algebra::*;
+    use crate::solver::core::cones::CompositeCone;
+
+    pub enum VSparseMap {
+        SOC { u: Vec<usize>, v: Vec<usize>, D: [usize; 2] },
+        GenPow { p: Vec<usize>, q: Vec<usize>, r: Vec<usize>, D: [usize; 3] },
+    }
+    pub struct VLDLDataMap {
+        pub P: Vec<usize>,
+        pub A: Vec<usize>,
+        pub Hsblocks: Vec<usize>,
+        pub sparse_maps: Vec<VSparseMap>,
+        pub diagP: Vec<usize>,
+        pub diag_full: Vec<usize>,
+    }
+
+    /// forwards to the real `assemble_kkt_matrix` and copies the resulting maps into plain vectors
+    pub fn assemble_kkt_matrix<T: FloatT>(
+        P: &CscMatrix<T>,
+        A: &CscMatrix<T>,
+        cones: &CompositeCone<T>,
+        triu: bool,
+    ) -> (CscMatrix<T>, VLDLDataMap) {
+        let shape = if triu { MatrixTriangle::Triu } else { MatrixTriangle::Tril };
+        let (K, map) = super::kkt_assembly::assemble_kkt_matrix(P, A, cones, shape);
+        let sparse_maps = map
+            .sparse_maps
+            .iter()
+            .map(|m| match m {
+                SparseExpansionMap::SOCExpansionMap(s) => VSparseMap::SOC { u: s.u.clone(), v: s.v.clone(), D: s.D },
+                SparseExpansionMap::GenPowExpansionMap(g) => VSparseMap::GenPow { p: g.p.clone(), q: g.q.clone(), r: g.r.clone(), D: g.D },
+            })
+            .collect();
+        let v = VLDLDataMap {
+            P: map.P.clone(),
+            A: map.A.clone(),
+            Hsblocks: map.Hsblocks.clone(),
+            sparse_maps,
+            diagP: map.diagP.clone(),
+            diag_full: map.diag_full.clone(),
+        };
+        (K, v)
+    }
+}
